@@ -39,5 +39,5 @@ func checkC03(r *Run) {
 func init() {
 	register("C03", &checkDef{fn: checkC03,
 		rule:        "for every trie node whose one-shot verdict is definitive: the one-shot result on every child prefix and on the prefix extended by each probe continuation must have the same verdict, offset and caller-visible values; transitions = extension pairs executed on the real code; non-trivial = input with a suspension and a definitive verdict on its path",
-		quickBudget: 150 * time.Second, thorBudget: 30 * time.Minute})
+		quickBudget: 240 * time.Second, thorBudget: 30 * time.Minute})
 }
